@@ -131,18 +131,48 @@ Theorem C14_vote_keeps_snapshot_powers : forall v o vs vs', vote_update v o vs =
   map (fun x => (v_val x, v_power x)) vs' = map (fun x => (v_val x, v_power x)) vs.
 Proof. exact vote_update_powers. Qed.
 
-(* ---- (5) a configuration change is emitted only when a configuration proposal whose recorded votes pass is
-   finalised, and at most once: the emitting step leaves the proposal in the last stage, where finalisation is
-   a no-op without events (and by (1) it stays there) ---- *)
-Theorem C14_config_only_for_passed : forall s e id s' ev id', h_finalize s e id = Some (s', ev) -> EvConfig id' ∈ ev ->
+(* ---- (5) a configuration change is emitted only when a configuration proposal whose recorded votes pass (under the
+   proposal's own percentage) is finalised, and at most once: afterwards finalisation is a no-op without events ---- *)
+Theorem C14_config_only_when_votes_pass : forall s e id s' ev id', h_finalize s e id = Some (s', ev) -> EvConfig id' ∈ ev ->
   id' = id /\ exists p, g_props s !! id = Some p /\ p_type p = TConfig /\
     (p_store p = SPassed \/ p_store p = SFailed) /\ p_extra p < 8 /\
-    tally (p_votes p) (p_pass p) = RPassed /\ rank_of s' id = 4%nat.
+    tally (p_votes p) (p_pass p) = RPassed /\ (p_store p = SPassed -> rank_of s' id = 4%nat).
 Proof. exact config_event_sound. Qed.
-Print Assumptions C14_config_only_for_passed.
+Print Assumptions C14_config_only_when_votes_pass.
+
+(* "only for a PASSED proposal": holds unless the proposal is in the failed store with votes that pass under its own
+   percentage (complement of [trig_failed_but_passing]) ... *)
+Theorem C14_config_only_for_passed_partial : forall s e id s' ev id' p,
+  h_finalize s e id = Some (s', ev) -> EvConfig id' ∈ ev -> g_props s !! id = Some p ->
+  trig_failed_but_passing p = false ->
+  id' = id /\ p_store p = SPassed /\ p_outcome p = p_outcome p /\ rank_of s' id = 4%nat.
+Proof. exact config_only_passed_partial. Qed.
+Print Assumptions C14_config_only_for_passed_partial.
+
+(* ... and the full statement is false of the faithful model: the vote handler decides pass / fail with the CURRENT
+   option percentage, finalisation recomputes the tally with the proposal's OWN percentage.  Here the option was
+   raised from 51 to 80 while proposal 0 was in its voting stage: votes yes(100) yes(100) no(100) make it FAILED
+   (outcome completedNo, failed store); the next block's finalisation finds that 66% >= 51%, applies its
+   configuration update, pays the PASSED distribution and leaves the id in the failed AND the finalized store.
+   Known finding C14.pass_percentage_drift. *)
+Definition wopts80 : opts := mkOpts 1 10 5 80 (mkDist 180000 180000 100000 180000 180000) (mkDist 180000 180000 100000 180000 180000).
+Definition wenv3 (o : opts) : env := mkEnv o o o [(10%N, 100); (11%N, 100); (12%N, 100)] [10%N; 11%N; 12%N] 13%N 14%N [] [].
+Definition wtx3 (o : opts) (x : op) : txop := mkTx x (wenv3 o) 0%N 0.
+Definition w_drift : list txop :=
+  [wtx3 wopts (OAdjust 1%N 100); wtx3 wopts (OAdjust 2%N 100);
+   wtx3 wopts (OBegin 1); wtx3 wopts (OCreate 0%N TConfig 1%N 5 5 10 10 51 true); wtx3 wopts (OFund 0%N 2%N 5); wtx3 wopts OEnd;
+   wtx3 wopts80 (OBegin 2); wtx3 wopts80 (OVote 0%N 10%N OpYes); wtx3 wopts80 (OVote 0%N 11%N OpYes);
+   wtx3 wopts80 (OVote 0%N 12%N OpNo); wtx3 wopts80 OEnd; wtx3 wopts80 (OBegin 3)].
+Theorem C14_config_only_for_passed_refuted : exists ts t id,
+  let s := (run init ts).1 in
+  (fun p => (trig_failed_but_passing p, p_store p, p_outcome p)) <$> (g_props s !! id) = Some (true, SFailed, OCompletedNo) /\
+  (step s t).2 = [EvConfig id; EvDistrib id 8 10] /\
+  (fun p => (p_store p, p_outcome p, p_extra p)) <$> (g_props (step s t).1.1 !! id) = Some (SFailed, OCompletedNo, 8) /\
+  g_applied (step s t).1.1 = [id].
+Proof. exists w_drift, (wtx3 wopts80 OEnd), 0%N. vm_compute. repeat split; reflexivity. Qed.
 
 Theorem C14_config_at_most_once : forall s e id p, g_props s !! id = Some p ->
-  p_store p = SFinalized \/ p_store p = SFinFailed -> h_finalize s e id = Some (s, []).
+  p_store p = SFinalized \/ p_store p = SFinFailed \/ 8 <= p_extra p -> h_finalize s e id = Some (s, []).
 Proof. exact finalize_terminal_noop. Qed.
 
 (* ---- (6) funds ---- *)
